@@ -46,6 +46,7 @@ SESSION_LEAVES = {
     'queue_in = cast(QueueIn, mp_context.Queue())': '',
     'queue_out = cast(QueueOut, mp_context.Queue())': 'Act InitSession',
     'context.send_command = SendCommand(queue_in)': '',
+    'context.open_prompts.clear()': '',
     'context.running_process = await run_in_process(func=partial(spawned.main, context.run_arg), mp_context=mp_context, '
     'initializer=partial(spawned.set_queues, queue_in, queue_out), collect_logging=True)': 'AwaitAct Spawn',
     'await _on_start_run(context, context.running_process)': 'AwaitAct StartRunHook',
